@@ -45,6 +45,7 @@ def getattr_hook(I, v, name):
 class _Mappings(Native):
     """defaultdict(set) collecting suffix -> providers: contents are not part
     of the contract proved here (bounded stand-in covers mappings)"""
+    loop_stable = True
 
     def getitem(self, I, k):
         return _MapSet()
@@ -57,7 +58,7 @@ class _MapSet(Native):
 
 
 class _Noop(Native):
-    def call(self, I, recv, args, kwargs, node):
+    def call(self, I, args, kwargs):
         return None
 
 
